@@ -1,7 +1,8 @@
 import Pcore.Proofs.DispatchRun
+import Pcore.Proofs.DispatchStruct
 import Pcore.Model.DispatchCtors
 /-!
-The three modelled constructors never reach a fault arm of their bodies: a body only runs with arguments its
+The modelled constructors of Integer, Boolean, Array/Tuple and Hash/Struct never reach a fault arm of their bodies: a body only runs with arguments its
 declaration accepts (an instance of `run_first`).  Core Lean only.
 -/
 namespace Pcore.Dispatch.Alpha
@@ -14,6 +15,41 @@ theorem intFromConvertible_no_fault (v : Val) (r : Nat) (h : inst convertible v 
 theorem asBool_of_inst (v : Val) (h : inst .bool v = true) : ∃ b, asBool v = some b := by
   cases v <;> simp [inst] at h
   exact ⟨_, rfl⟩
+
+theorem applyAbs_no_fault (abs : Bool) (r : CtorResult Val) (h : r ≠ .fault) : applyAbs abs r ≠ .fault := by
+  unfold applyAbs
+  split
+  · simp
+  · exact h
+
+/-- the two facts the `NamedArgs` bodies need from `StructType.IsInstance`: the member `from` is there with a value of its
+    type, and the optional boolean member `abs` is absent or a boolean -/
+theorem named_from {ms : List (String × Bool × Ty)} {es : List (Val × Val)} {t : Ty}
+    (hm : ∀ m ∈ ms, (∃ x, lookupKey m.1 es = some x ∧ inst m.2.2 x = true) ∨ (m.2.1 = true ∧ lookupKey m.1 es = none))
+    (hin : ("from", false, t) ∈ ms) : ∃ x, lookupKey "from" es = some x ∧ inst t x = true := by
+  rcases hm _ hin with h | ⟨h, _⟩
+  · exact h
+  · cases h
+
+theorem named_abs {ms : List (String × Bool × Ty)} {es : List (Val × Val)}
+    (hm : ∀ m ∈ ms, (∃ x, lookupKey m.1 es = some x ∧ inst m.2.2 x = true) ∨ (m.2.1 = true ∧ lookupKey m.1 es = none))
+    (hin : ("abs", true, Ty.bool) ∈ ms) :
+    lookupKey "abs" es = none ∨ ∃ b, lookupKey "abs" es = some (.bool b) := by
+  rcases hm _ hin with ⟨x, hl, hi⟩ | ⟨_, h⟩
+  · right
+    cases x <;> simp [inst] at hi
+    exact ⟨_, hl⟩
+  · exact Or.inl h
+
+theorem integerBody1_no_fault (es : List (Val × Val))
+    (hm : ∀ m ∈ [("from", false, convertible), ("radix", true, radixTy), ("abs", true, Ty.bool)],
+      (∃ x, lookupKey m.1 es = some x ∧ inst m.2.2 x = true) ∨ (m.2.1 = true ∧ lookupKey m.1 es = none)) :
+    integerBody1 es ≠ .fault := by
+  obtain ⟨x, hl, hi⟩ := named_from (t := convertible) hm (by simp)
+  have hx := intFromConvertible_no_fault x (namedRadix es) hi
+  unfold integerBody1
+  simp only [hl, Option.getD_some]
+  rcases named_abs hm (by simp) with ha | ⟨b, ha⟩ <;> simp only [ha, asBool] <;> exact applyAbs_no_fault _ _ hx
 
 /-- a constructor call either reports that no dispatch matches, or runs the body of a creator whose declaration the
     arguments satisfy -/
@@ -61,20 +97,18 @@ theorem integer_no_fault (args : List Val) : ctorCall integerCtor args ≠ .faul
             exact asBool_of_inst a2 hi2
         obtain ⟨b, hb⟩ := habs
         simp only [hb]
-        have := intFromConvertible_no_fault a0 (radixOf rest) hi0
-        cases hres : intFromConvertible a0 (radixOf rest) with
-        | fault => exact absurd hres this
-        | reported c => simp
-        | value v => cases v <;> simp
+        exact applyAbs_no_fault _ _ (intFromConvertible_no_fault a0 (radixOf rest) hi0)
     | 1, hcr =>
       simp [integerCtor] at hcr; subst hcr
       simp only [paramsOf, List.filterMap, BOp.param?] at hreq hargs
-      have h0 := hreq 0 (.req, .never) (by simp) rfl
+      have h0 := hreq 0 (.req, integerNamedArgs) (by simp) rfl
       match args, h0 with
       | a0 :: rest, _ =>
         obtain ⟨p0, hp0, hi0⟩ := hargs 0 a0 (by simp)
         simp at hp0; subst hp0
-        simp [inst] at hi0
+        obtain ⟨es, rfl, -, hm⟩ := inst_struct _ (by decide) a0 hi0
+        simp only [integerCtor]
+        exact integerBody1_no_fault es hm
     | n + 2, hcr => simp [integerCtor] at hcr
 
 theorem boolean_no_fault (args : List Val) : ctorCall booleanCtor args ≠ .fault := by
@@ -121,10 +155,11 @@ theorem array_no_fault (args : List Val) : ctorCall arrayCtor args ≠ .fault :=
           simp only [arrayCtor, stringElements]
           split <;> simp
         | int n => simp [arrayParam, inst, instAny] at hi0
+        | float b => simp [arrayParam, inst, instAny] at hi0
         | bool b => simp [arrayParam, inst, instAny] at hi0
         | undef => simp [arrayParam, inst, instAny] at hi0
         | default => simp [arrayParam, inst, instAny] at hi0
-        | hash es => simp [arrayParam, inst, instAny] at hi0
+        | hash es => simp [arrayCtor]
     | n + 1, hcr => simp [arrayCtor] at hcr
 
 theorem hashFromArray_no_fault (vs : List Val) : hashFromArray vs ≠ .fault := by
@@ -169,6 +204,7 @@ theorem hash_no_fault (args : List Val) : ctorCall hashCtor args ≠ .fault := b
           | reported c => simp
           | value v => cases v <;> simp; exact hashFromArray_no_fault _
         | int n => simp [iterableTy, inst, instAny] at hi0
+        | float b => simp [iterableTy, inst, instAny] at hi0
         | bool b => simp [iterableTy, inst, instAny] at hi0
         | undef => simp [iterableTy, inst, instAny] at hi0
         | default => simp [iterableTy, inst, instAny] at hi0
